@@ -479,3 +479,62 @@ def atom_text(t):
     if isinstance(t, tuple) and t and t[0] == 'not':
         return "not " + atom_text(t[1])
     return repr(t)
+
+
+# ------------------------------------------------------------------------------------------------ finite integer evaluation
+def int_eval(e, env):
+    """value of an integer / boolean Expr under a finite assignment (env: symbol or `name[idx]` -> int); None when it leaves
+    the integer vocabulary.  Used to decide an extracted predicate by exhaustive enumeration of a small finite domain."""
+    k = e[0]
+    if k == 'num':
+        return int(e[1]) if e[1].denominator == 1 else None
+    if k == 'sym':
+        return env.get(e[1])
+    if k == 'neg':
+        v = int_eval(e[1], env)
+        return None if v is None else -v
+    if k in ('add', 'sub', 'mul', 'div'):
+        a, b = int_eval(e[1], env), int_eval(e[2], env)
+        if a is None or b is None or isinstance(a, bool) or isinstance(b, bool):
+            return None
+        if k == 'add':
+            return a + b
+        if k == 'sub':
+            return a - b
+        if k == 'mul':
+            return a * b
+        if b == 0:
+            return None
+        q = abs(a) // abs(b)
+        return q if (a >= 0) == (b >= 0) else -q           # C division truncates towards zero
+    if k == 'call' and e[1] == 'mod' and len(e[2]) == 2:
+        a, b = int_eval(e[2][0], env), int_eval(e[2][1], env)
+        if a is None or b is None or b == 0:
+            return None
+        r = abs(a) % abs(b)
+        return r if a >= 0 else -r
+    if k == 'call' and e[1] == 'abs' and len(e[2]) == 1:
+        a = int_eval(e[2][0], env)
+        return None if a is None else abs(a)
+    if k == 'call' and e[1].startswith('A:') and len(e[2]) == 1:
+        i = int_eval(e[2][0], env)
+        return None if i is None else env.get(f"{e[1][2:]}[{i}]")
+    if k == 'cmp':
+        a, b = int_eval(e[2], env), int_eval(e[3], env)
+        if a is None or b is None:
+            return None
+        return {"<": a < b, "<=": a <= b, ">": a > b, ">=": a >= b, "==": a == b, "!=": a != b}[e[1]]
+    if k in ('and', 'or'):
+        a, b = int_eval(e[1], env), int_eval(e[2], env)
+        if a is None or b is None:
+            return None
+        return (bool(a) and bool(b)) if k == 'and' else (bool(a) or bool(b))
+    if k == 'not':
+        a = int_eval(e[1], env)
+        return None if a is None else not bool(a)
+    if k == 'where':
+        c = int_eval(e[1], env)
+        if c is None:
+            return None
+        return int_eval(e[2] if c else e[3], env)
+    return None
